@@ -47,6 +47,7 @@ type checkCtx struct {
 	crashDiscard func(status, detail string) bool // record mode: dead/stuck workers that are not judged
 
 	sigCount   map[string]int // mismatches per signature (before known-finding classification)
+	lastOpts   map[string]string
 	violations []violation
 	knownLines []string
 	knownSeen  map[string]bool
@@ -364,6 +365,7 @@ func (c *checkCtx) vhRunExe(exe string, args ...string) {
 
 // replay runs the cases of file through family fam and returns (case, result) pairs.
 func (c *checkCtx) replay(fam, casesFile string, o replayOpts) (cases, results []map[string]J) {
+	c.lastOpts = o.opts // recorded in the replay file of a violation, so that --replay runs the case under the same options
 	if o.workers == 0 {
 		o.workers = 14
 	}
@@ -537,7 +539,7 @@ func (c *checkCtx) mismatch(fam string, cs, r map[string]J) {
 	dir := filepath.Join(root, "replays", c.id)
 	_ = os.MkdirAll(dir, 0o755)
 	path := filepath.Join(dir, fmt.Sprintf("%x.json", h[:6]))
-	b, _ := json.MarshalIndent(map[string]J{"property": c.id, "family": fam, "case": cs, "result": r, "seed": c.seed, "tier": c.tier}, "", " ")
+	b, _ := json.MarshalIndent(map[string]J{"property": c.id, "family": fam, "case": cs, "result": r, "seed": c.seed, "tier": c.tier, "opts": c.lastOpts}, "", " ")
 	_ = os.WriteFile(path, b, 0o644)
 	c.violations = append(c.violations, violation{replay: path, summary: text})
 }
